@@ -225,12 +225,18 @@ def run(rep, tier, rng):
             if nkeys >= 2:
                 inputs["mixture-1.0-0.6"] = [SC * a + 6 * b_ for a, b_ in zip(keyv[0], keyv[1])]
                 inputs["mixture-0.6-1.0"] = [6 * a + SC * b_ for a, b_ in zip(keyv[0], keyv[1])]
-            for cname, (cls, kw) in CLASSES.items():
-                kind = {"ThresholdingAssocMem": "KThreshold", "WTAAssocMem": "KWta", "IAAssocMem": "KIa"}[cname]
+            variants = list(CLASSES.items())
+            # non-default strength of the lateral inhibition: a clean key still yields its paired output at its own strength
+            variants += [("WTAAssocMem inhibit_scale=2.0", (spa.WTAAssocMem, {"threshold": 0.3, "inhibit_scale": 2.0})),
+                         ("WTAAssocMem inhibit_scale=0.5", (spa.WTAAssocMem, {"threshold": 0.3, "inhibit_scale": 0.5}))]
+            for cname, (cls, kw) in variants:
+                kind = {"ThresholdingAssocMem": "KThreshold", "WTAAssocMem": "KWta", "IAAssocMem": "KIa"}[cname.split()[0]]
                 kw = dict(kw)
                 if "threshold" in kw:
                     kw["threshold"] = theta10 / 10.0
                 for iname, x10 in inputs.items():
+                    if "inhibit_scale" in cname and iname not in ("clean-key", "clean-last-key", "zero", "unrelated", "below-threshold"):
+                        continue
                     if cname == "IAAssocMem" and iname == "below-threshold":
                         continue        # accumulators integrate any positive evidence: not claimed
                     if cname == "ThresholdingAssocMem" and iname.startswith("mixture") and theta10 >= 6:
